@@ -77,6 +77,7 @@ type Engine struct {
 	trustedClauses []string // clauses of partly verified functions that are assumed, not proved
 	noPanicNoted  bool
 	packCalls     int
+	failedTerm    string // ghost state: a callee whose contract says failure-is-event has returned an error
 	loggedTerm    string // ghost state: an error-level line has been logged so far (on this path)
 	calleeLogFlag string // while a callee's postconditions are evaluated: its "logged an error" flag
 	lastSort      *sortRec
@@ -630,6 +631,7 @@ func (e *Engine) execBlock(fr *frame, b *ssa.BasicBlock, entryReach string, entr
 					heap[k] = v
 				}
 				e.loggedTerm = ls.logged
+				e.failedTerm = ls.failed
 			}
 		}
 	}
